@@ -9,8 +9,8 @@ for p in "$@"; do
       b8*) [ $prop != C13 ] && continue ;;
     esac
     out="$(/verif/tools/scripts/run-mutant.sh "$p" "$prop" "$TIER" 2>&1)"
-    e="$(echo "$out" | grep -E '^exit=' | tail -1)"
-    v="$(echo "$out" | grep -E '^VIOLATION|^violation class|^verif:|MUTANT-DOES' | head -2 | tr '\n' ' ' | cut -c1-300)"
+    e="$(echo "$out" | grep -aE '^exit=' | tail -1)"
+    v="$(echo "$out" | grep -aE '^VIOLATION|^violation class|^verif:|MUTANT-DOES' | head -2 | tr '\n' ' ' | cut -c1-300)"
     echo "$(basename $p) $prop $e $v"
   done
 done
